@@ -187,9 +187,12 @@ CLAIMED["C29"] = ("Proof over the generated path-struct API and the resolution k
     "list's key leaves by YANG name, each mapped to the accessor's parameter of that key or to the wildcard \"*\" when the accessor has none; "
     "ygot.NewNodePath is proved to store what it is given. (2) Resolution: (*NodePath).relPath is proved to return one PathElem per name of the relative "
     "schema path, in order, with the keys attached to the last element only, each rendered by KeyValueAsString (so \"*\" stays \"*\"), and errors exactly "
-    "when some key cannot be rendered; ModifyKey updates exactly one key. Not covered: ygot.ResolvePath's concatenation along the parent chain (interface "
-    "dispatch over parent()/relPath(), not modelled), leaf path structs' own methods, builder-style key methods, uncompressed schemas (the generator "
-    "rejects them), schemas outside the corpus.", "5 (C29)", "")
+    "when some key cannot be rendered (then with a nil-free, non-empty error list, otherwise a nil one); ModifyKey updates exactly one key; ygot.ResolvePath is "
+    "proved to return, for a parent chain without errors, exactly the concatenation from the root down of what each node's relPath() contributes (the "
+    "expected sequence is defined by recursion over the chain through axioms; parent() is an uninterpreted function of the node, and the interface method "
+    "relPath is used through an assumed contract over abstract per-node contributions - that every PathStruct's relPath is (*NodePath).relPath, which is "
+    "proved, is the trusted link), and no path when any node reports an error. Not covered: the target / custom data of the root, leaf path structs' own "
+    "methods, builder-style key methods, uncompressed schemas (the generator rejects them), schemas outside the corpus.", "5 (C29)", "")
 
 CLAIMED["C33"] = ("Proof over the generated code: the working tree's generator is run on the key-type corpus and the compressed repository schema (thorough: also "
     "the uncompressed one), and for every generated struct's PopulateDefaults (26 in the quick corpus) it is proved that (a) every leaf that has a YANG default - "
